@@ -16,6 +16,7 @@
  */
 #include <iostream>
 #include <map>
+#include <set>
 #include <type_traits>
 
 #include "TFEL/Raise.hxx"
@@ -53,7 +54,14 @@ static std::string show(const double v) {
   os << v;
   return os.str();
 }
+//! in the loop level runs the fields hold arbitrary values: print them all
+static bool g_raw = false;
 static std::string get_tag(const Vector& v) {
+  if (g_raw) {
+    std::string r;
+    for (const auto x : v) r += (r.empty() ? "" : ",") + show(x);
+    return r.empty() ? "-" : r;
+  }
   if (v.size() != 2) return "BROKEN-size" + std::to_string(v.size());
   if (v[1] != v[0] + 0.5) return "BROKEN(" + show(v[0]) + "," + show(v[1]) + ")";
   return show(v[0]);
@@ -235,8 +243,48 @@ static std::string op_rv(Tokens& tk) {
 }
 
 // ---------------------------------------------------------------- loop level
+static bool holds(const Vector& v, const double id) {
+  for (const auto x : v)
+    if (x == id) return true;
+  return false;
+}
+static bool holds(const real& v, const double id) { return v == id; }
+static bool holds(const unsigned int& v, const double id) { return static_cast<double>(v) == id; }
+template <typename T>
+static bool holds(const T&, const double) {
+  return false;
+}
+static void put_id(Vector& v, const double id) {
+  for (auto& x : v) x = id;
+}
+static void put_id(real& v, const double id) { v = id; }
+template <typename T>
+static void put_id(T&, const double) {}
+
 struct Physics {
   World* w;
+  /*!
+   * tag mode: every field an attempt writes receives the identifier of the attempt; at the beginning
+   * of the attempt that follows a rejection, the fields an attempt may read (pers / end) that still
+   * hold the identifier of the rejected attempt are exactly what `revert` did not restore.
+   */
+  bool tag_mode = false;
+  double id = 1000;
+  double last_t = 0;
+  bool has_last = false;
+  std::set<std::string> leaks;
+  void attempt_start(mtest::StudyCurrentState& s, const real t) {
+    if (tag_mode && has_last && (t == last_t)) {
+      const double prev = id;
+      w->visit(s, [this, prev](const char* n, auto& f, const char* cls) {
+        const std::string c = cls;
+        if (((c == "pers") || (c == "end")) && holds(f, prev)) leaks.insert(n);
+      });
+    }
+    id += 1;
+    last_t = t;
+    has_last = true;
+  }
   //! hash of everything an attempt may read: pers and end fields (recomp fields once prepare wrote them)
   Hasher view(mtest::StudyCurrentState& s, const bool with_recomp) {
     Hasher h;
@@ -247,6 +295,12 @@ struct Physics {
     return h;
   }
   void prepare(mtest::StudyCurrentState& s, const real t, const real dt) {
+    if (tag_mode) {
+      w->visit(s, [this](const char*, auto& f, const char* cls) {
+        if (std::string(cls) == "recomp") put_id(f, id);
+      });
+      return;
+    }
     auto h = view(s, false);
     h.add(t);
     h.add(dt);
@@ -255,19 +309,22 @@ struct Physics {
     });
   }
   void compute(mtest::StudyCurrentState& s, Vector& r, const real t, const real dt, const int call) {
+    if (tag_mode) {
+      w->visit(s, [this](const char*, auto& f, const char* cls) {
+        if (std::string(cls) == "end") put_id(f, id);
+      });
+      // u1 was overwritten with the identifier: the Newton update u1 -= r keeps it
+      for (std::size_t i = 0; i != r.size(); ++i) r[i] = 0;
+      return;
+    }
     auto h = view(s, true);
     h.add(t);
     h.add(dt);
     h.mix(static_cast<std::uint64_t>(call));
-    // structure level end fields (and the statistics-like ones the real code may touch)
-    for (const auto& sn : w->names) {
-      auto& scs = s.getStructureCurrentState(sn);
-      auto wr = [&h](const char*, auto& f, const char* cls) {
-        if (std::string(cls) == "end") put(f, h);
-      };
-      for (auto& cs : scs.istates) gen50::visit_cs(cs, wr);
-      for (auto& m : w->models) gen50::visit_cs(scs.getModelCurrentState(*m), wr);
-    }
+    // every end-of-step field (study level and structure level)
+    w->visit(s, [&h](const char*, auto& f, const char* cls) {
+      if (std::string(cls) == "end") put(f, h);
+    });
     // study level: the new iterate is u1 - r (K = identity)
     for (std::size_t i = 0; i != r.size(); ++i) {
       r[i] = s.u1[i] - h.unit();
@@ -282,12 +339,13 @@ static std::string run_once(World& w,
                             const real te,
                             std::vector<std::pair<double, double>>& attempts,
                             std::vector<std::size_t>& accepted,
-                            unsigned& period_before) {
+                            unsigned& period_before,
+                            Physics& ph) {
   MockStudy s;
   s.n = w.st.u0.size();
   s.script = script;
   s.late_convergence = true;
-  Physics ph{&w};
+  s.on_attempt_start = [&ph](mtest::StudyCurrentState& st, real t, real) { ph.attempt_start(st, t); };
   s.on_prepare = [&ph](mtest::StudyCurrentState& st, real t, real dt) { ph.prepare(st, t, dt); };
   s.on_compute = [&ph](mtest::StudyCurrentState& st, Vector& r, real t, real dt, int call) {
     ph.compute(st, r, t, dt, call);
@@ -329,6 +387,10 @@ static std::shared_ptr<mtest::AccelerationAlgorithm> make_aa(const std::string& 
 }
 
 static std::string op_run(Tokens& tk) {
+  struct Raw {
+    Raw() { g_raw = true; }
+    ~Raw() { g_raw = false; }
+  } raw;
   mtest::SolverOptions o;
   o.dynamic_time_step_scaling = tk.integer() != 0;
   o.mSubSteps = static_cast<int>(tk.integer());
@@ -384,13 +446,14 @@ static std::string op_run(Tokens& tk) {
   std::string verdict = "end";
   std::size_t consumed = 0;
   std::size_t rejected = 0;
+  Physics ph1{w1.get()};
   for (std::size_t i = 0; (i + 1 < nt) && (verdict == "end"); ++i) {
     std::vector<std::pair<double, double>> attempts;
     std::vector<std::size_t> accepted;
     unsigned p0 = 0;
     const std::vector<Attempt> rest(script.begin() + static_cast<std::ptrdiff_t>(std::min(consumed, script.size())),
                                     script.end());
-    verdict = run_once(*w1, o, rest, times[i], times[i + 1], attempts, accepted, p0);
+    verdict = run_once(*w1, o, rest, times[i], times[i + 1], attempts, accepted, p0, ph1);
     for (const auto k : accepted) acc.push_back({attempts[k].first, attempts[k].second, rest[k]});
     rejected += attempts.size() - accepted.size();
     consumed += attempts.size();
@@ -402,16 +465,43 @@ static std::string op_run(Tokens& tk) {
   o2.dynamic_time_step_scaling = false;
   o2.aa = make_aa(aan, 3);
   std::string verdict2 = "end";
+  Physics ph2{w2.get()};
   for (const auto& [t, dt, a] : acc) {
     const double te = t + dt;
     if (te - t != dt) exact = false;
     std::vector<std::pair<double, double>> attempts;
     std::vector<std::size_t> accepted;
     unsigned p0 = 0;
-    const auto v = run_once(*w2, o2, {a}, t, te, attempts, accepted, p0);
+    const auto v = run_once(*w2, o2, {a}, t, te, attempts, accepted, p0, ph2);
     if (v != "end") verdict2 = v;
   }
   out << " direct=" << verdict2 << " exact=" << (exact ? 1 : 0);
+  // third world, tag mode: which readable fields still hold a value written by a rejected attempt
+  {
+    auto w3 = mk();
+    Physics ph3{w3.get()};
+    ph3.tag_mode = true;
+    auto o3 = o;
+    o3.aa.reset();
+    std::string v3 = "end";
+    std::size_t c3 = 0;
+    for (std::size_t i = 0; (i + 1 < nt) && (v3 == "end"); ++i) {
+      std::vector<std::pair<double, double>> attempts;
+      std::vector<std::size_t> accepted;
+      unsigned p0 = 0;
+      const std::vector<Attempt> rest(script.begin() + static_cast<std::ptrdiff_t>(std::min(c3, script.size())),
+                                      script.end());
+      v3 = run_once(*w3, o3, rest, times[i], times[i + 1], attempts, accepted, p0, ph3);
+      c3 += attempts.size();
+    }
+    out << " leak=";
+    if (ph3.leaks.empty()) out << "-";
+    bool first = true;
+    for (const auto& n : ph3.leaks) {
+      out << (first ? "" : ",") << n;
+      first = false;
+    }
+  }
   out << " A" << dump(*w1, w1->st) << " B" << dump(*w2, w2->st);
   return out.str();
 }
